@@ -26,7 +26,7 @@ def olat(l):
 def unit_part(ctx, c):
     rng = ctx.rng
     grid = [Fraction(rng.randint(-64, 4096), 1 << rng.choice([0, 1, 3, 6, 10])) for _ in range(40)]
-    lats = [None, '0', '1/8', '1/2', '1', '2', '-1/4', '-1', '3/16', '5']
+    lats = [None, '0', '1/8', '1/2', '1', '2', '-1/4', '-1', '3/16', '5'] + K.EDGE_LATS + ['268435456', '-1/4294967296']
     cases = []
     for _ in range(ctx.n(150, 1500)):
         st = str(rng.choice(grid))
